@@ -18,6 +18,10 @@ ASSUMPTIONS = [
     "a fresh advertisement; headers still queued at that moment are dropped by design and not judged",
     "protocol layer: queue.valid held until ready with a stable header; DATA headers announce an empty payload "
     "(data_sink idle); header fields delayed=0, reserved=0",
+    "ordering mismatch (quantifier: all LGOOD/LBAD orderings): the partner's LBAD may overtake the LGOODs it still "
+    "owes for intact headers received before the corrupted one; these LGOODs carry the correct numbers, come in "
+    "order after the LBAD and before the partner acknowledges anything retransmitted; a header retired by such an "
+    "LGOOD between the LBAD and the start of the retransmission may or may not be retransmitted (not judged)",
     "a header whose transmission starts up to 3 cycles after the partner's LBAD word may still be a regular "
     "(non-retransmitted) one: the LBAD is decoded one cycle after its word and a dispatch takes two more cycles",
 ]
@@ -50,6 +54,17 @@ def case_strategy():
         mischief=st.lists(st.tuples(weighted([("lgood", 2), ("lcrd", 2), ("lrty", 1), ("down", 2)]),
                                     st.integers(1, 14), bits(4)).map(list), max_size=2),
         down_len=st.lists(st.integers(10, 40), min_size=1, max_size=3),
+        # per corrupted header [kind, off, lbad_delay]: "no" = the LBAD follows the pending LGOODs (legal order);
+        # "free"/"aim" = it overtakes them (they follow at their own pace / the first one's command word is aimed at
+        # <last word of the header the DUT has in flight> + off)
+        overtake=st.one_of(st.just([]), st.lists(st.one_of(
+            st.just(["no", 0, 0]),
+            st.tuples(st.just("free"), st.just(0), st.integers(0, 12)).map(list),
+            st.tuples(st.just("aim"), st.integers(-3, 3), st.integers(0, 12)).map(list),
+            st.tuples(st.just("aim"), st.integers(-3, 3), st.integers(0, 12)).map(list)), min_size=1, max_size=3)),
+        # slow acknowledger (several LGOODs pending when a header arrives corrupted) in a third of the cases
+        slow_ack=st.one_of(st.just([]), st.just([]), st.lists(weighted([(5, 1), (8, 2), (12, 2), (18, 1)]),
+                                                              min_size=1, max_size=4)),
     ))
 
 
@@ -105,6 +120,15 @@ def judge_epoch(drv, trace, log, ei, final):
     def b_of(c):
         return sum(1 for a in acks if a["t"] < c)
 
+    def due(r, lo, s):
+        """Index of r among the headers that may be due: the oldest one not retired when the walk (re)started, or --
+        when LGOODs arrived since (an LBAD that overtook them) -- a later one, every header skipped being retired by
+        an LGOOD sent before r was presented.  (A header retired meanwhile may still be retransmitted: not judged.)"""
+        for j in range(lo, max(lo, b_of(s)) + 1):
+            if matches(r, j):
+                return j
+        return None
+
     for r in W:
         s = r["pres"]
         while li < len(lbads) and lbads[li] + LBAD_WINDOW < s:
@@ -112,14 +136,13 @@ def judge_epoch(drv, trace, log, ei, final):
             p = b_of(lbads[li])
             li += 1
             applied += 1
-        idx = None
-        if matches(r, p):
-            idx = p
-        elif li < len(lbads) and lbads[li] + 1 < s and matches(r, b_of(lbads[li])):
-            dl_limit = max(dl_limit, hi)
-            idx = b_of(lbads[li])
-            li += 1
-            applied += 1
+        idx = due(r, p, s)
+        if idx is None and li < len(lbads) and lbads[li] + 1 < s:
+            idx = due(r, b_of(lbads[li]), s)
+            if idx is not None:
+                dl_limit = max(dl_limit, hi)
+                li += 1
+                applied += 1
         if idx is None:
             recent = [c for c in lbads if c < s]
             near = f"; last LBAD word in cycle {recent[-1]}" if recent else ""
@@ -177,13 +200,17 @@ class HeaderTxSub(Sub):
     rule = ("closed loop around PacketTransmitter(buffer_count=4): protocol layer offers 2..24 headers (random content, "
             "all four types; offer times random or aimed at -3..+4 cycles around the partner's next LBAD word); the "
             "partner BFM advertises LGOOD(m)+LCRD A-D, acknowledges / credits with generated delays, corrupts "
-            "received headers (-> LBAD, ignore until our LRTY) incl. retransmissions, injects mismatched LGOOD/LCRD, "
+            "received headers (-> LBAD, ignore until our LRTY) incl. retransmissions; in half of the cases an LBAD may "
+            "overtake the LGOODs still pending for earlier headers (slow acknowledger: several pending), which then "
+            "arrive after it, free-running or the first one aimed at -3..+3 cycles around the last word of the header "
+            "the DUT has in flight (retirement coinciding with the rewind); injects mismatched LGOOD/LCRD, "
             "stray LRTY or link-downs (the link leaves U0 one cycle after recovery_required and re-enters with a new "
             "advertisement); PHY ready stalls. Oracle (reference parse of the wire + go-back-N model): a header is "
             "taken from the queue only after the advertisement and with an unused credit; the wire carries the "
             "accepted headers in order, numbered consecutively from m+1, with unchanged content; after an LBAD the "
-            "next header started (beyond a 3-cycle window) is the oldest unacknowledged one and everything sent "
-            "before is resent in order with DL=1 before anything new; when the run drains nothing accepted is left "
+            "next header started (beyond a 3-cycle window) is the oldest unacknowledged one (or a later one if "
+            "LGOODs sent meanwhile retired those skipped) and everything sent before and still unacknowledged is "
+            "resent in order with DL=1 before anything new; when the run drains nothing accepted is left "
             "unsent. Non-trivial: >= 4 headers transmitted and (an LBAD with a retransmission, or the queue blocked "
             "by exhausted credits).")
 
@@ -232,6 +259,15 @@ class HeaderTxSub(Sub):
         for c in drv.sent_cmds:
             if c["tag"] in ("bad-lgood", "bad-lcrd", "stray-lrty"):
                 labels.add(c["tag"])
+        for c in drv.sent_cmds:
+            if c["tag"] == "lbad-overtaking":
+                labels.add("lbad-overtakes-lgood")
+                late = [a for a in drv.sent_cmds if a["tag"] == "ack" and a["epoch"] == c["epoch"] and a["t"] > c["t"]]
+                for a in late[:1]:
+                    for r in drv.rx_log:
+                        if r["start"] <= c["t"] + 1 <= r["end"] and -3 <= a["t"] - r["end"] <= 3:
+                            # LBAD decoded under a header in flight, first late LGOOD word around that header's last word
+                            labels.add(f"late-lgood-at-inflight-end{a['t'] - r['end']:+d}")
         if any(h[0] == "lbad" for h in case["hdrs"]) and tot["lbads"]:
             labels.add("offer-aimed-at-lbad")
         labels.add(f"sent={min(tot['sent'], 12) // 4 * 4}+")
